@@ -154,6 +154,9 @@ func (f *Frame) call(c *ssa.CallCommon, instr ssa.Value, st *State, reach string
 		}
 	}
 	if c.IsInvoke() {
+		if v, ok := f.codecCall(c, args, instr, st, reach, pos); ok {
+			return v
+		}
 		ct, key := g.lookupInvokeContract(c)
 		if ct != nil {
 			names := []string{"recv"}
@@ -787,4 +790,76 @@ func decLiteral(s string) (string, bool) {
 		return "(- " + digits + ")", true
 	}
 	return digits, true
+}
+
+// codecCall models codec.BinaryCodec (protobuf) marshalling as an uninterpreted
+// injective encoding per struct sort: unmarshal_S(marshal_S(x)) = x, and no
+// encoding equals the nil byte slice (A-CODEC). Decoding bytes that were
+// written for another type yields an unconstrained value of the target type.
+func (f *Frame) codecCall(c *ssa.CallCommon, args []Val, instr ssa.Value, st *State, reach string, pos token.Pos) (Val, bool) {
+	g := f.g
+	full := c.Method.FullName()
+	if !strings.HasPrefix(full, "(github.com/cosmos/cosmos-sdk/codec.BinaryCodec).") && !strings.HasPrefix(full, "(github.com/cosmos/cosmos-sdk/codec.Codec).") {
+		return Val{}, false
+	}
+	name := c.Method.Name()
+	structOf := func(v Val) (Val, string, bool) {
+		if v.Ptr == nil {
+			return Val{}, "", false
+		}
+		var el types.Type
+		if v.GoT != nil {
+			if pt, ok := v.GoT.Underlying().(*types.Pointer); ok {
+				el = pt.Elem()
+			}
+		}
+		if el == nil && v.Ptr.Cell != nil {
+			el = v.Ptr.Cell.goT
+		}
+		lv := g.load(st, v.Ptr, el)
+		if lv.Term == "" {
+			return Val{}, "", false
+		}
+		return lv, lv.Sort, true
+	}
+	declare := func(srt string) {
+		g.useTheory("kv")
+		m := "marshal_" + mangle(srt)
+		if _, ok := g.ufDecl[m]; ok {
+			return
+		}
+		g.uf(m, []string{srt}, "Str")
+		g.uf("un"+m, []string{"Str"}, srt)
+		g.emit(fmt.Sprintf("(assert (forall ((x %s)) (! (and (= (un%s (%s x)) x) (not (= (%s x) Bytes_nil))) :pattern ((%s x)))))", srt, m, m, m, m))
+		g.assumes["A-CODEC: protobuf Marshal is injective per message type and Unmarshal inverts it (uninterpreted encoding)"] = true
+	}
+	switch name {
+	case "MustMarshal", "Marshal", "MustMarshalLengthPrefixed":
+		v, srt, ok := structOf(args[1])
+		if !ok {
+			return Val{}, false
+		}
+		declare(srt)
+		out := Val{Sort: "Str", Term: g.def(f.name(instr), "Str", fmt.Sprintf("(marshal_%s %s)", mangle(srt), v.Term)), GoT: types.NewSlice(types.Typ[types.Byte])}
+		if name == "Marshal" {
+			return Val{Tuple: []Val{out, {Sort: "Err", Term: "Err_nil"}}}, true
+		}
+		return out, true
+	case "MustUnmarshal", "Unmarshal":
+		_, srt, ok := structOf(args[2])
+		if !ok {
+			return Val{}, false
+		}
+		declare(srt)
+		var el types.Type
+		if args[2].Ptr.Cell != nil && len(args[2].Ptr.Path) == 0 {
+			el = args[2].Ptr.Cell.goT
+		}
+		g.store(st, args[2].Ptr, Val{Sort: srt, Term: g.def(f.name(instr)+"_dec", srt, fmt.Sprintf("(unmarshal_%s %s)", mangle(srt), args[1].Term)), GoT: el})
+		if name == "Unmarshal" {
+			return g.freshVal(f.name(instr), types.Universe.Lookup("error").Type(), st), true
+		}
+		return Val{}, true
+	}
+	return Val{}, false
 }
